@@ -310,3 +310,165 @@ pub fn shrinks(sc: &Sc) -> Vec<Sc> {
 pub fn sample(sc: &Sc) -> serde_json::Value {
     serde_json::json!({ "config": config_yaml(sc), "statement": render(sc) })
 }
+
+/// The Viseca side of C17: the rule fold over card-statement entries. The payee each rule
+/// chain starts from is the one the importer yields under no rule at all (the same statement
+/// imported with an empty rule list), so the entry-line parser is not modelled; the fold -
+/// list order, each rule seeing the payee as rewritten so far, account override, pending
+/// mark, default account - is.
+pub fn c17_leg(sc: &Sc, out: &mut RunOut) {
+    out.count("importer.viseca");
+    let text = render(sc);
+    let today = Date::new(2024, 6, 15);
+    let no_faults = Default::default();
+    let import_with = |s: &Sc, p: &Proc, out: &mut RunOut| -> Option<Result<Imported, String>> {
+        let yaml = config_yaml(s);
+        let mut files: BTreeMap<String, Vec<u8>> = BTreeMap::new();
+        files.insert("/w/import.yml".to_string(), yaml.clone().into_bytes());
+        files.insert(SOURCE.to_string(), text.clone().into_bytes());
+        let files = Rc::new(files);
+        let vfs = make_vfs(&files, &no_faults, p, today);
+        match import_api(&vfs, p, &yaml, SOURCE, text.as_bytes(), okane::import::Format::Viseca, out) {
+            Ok(r) => Some(r),
+            Err(pi) => {
+                out.count("foreign.panic");
+                out.violate_keyed("C17/panic", pi.signature(), pi.signature(), format!("the Viseca importer panicked: {}\n{}", pi.signature(), text));
+                None
+            }
+        }
+    };
+    let mut bare = sc.clone();
+    bare.rules.clear();
+    let base = match import_with(&bare, &Proc::plain(sc.procs[0].hash_seed), out) {
+        Some(Ok(b)) => b,
+        Some(Err(_)) => {
+            out.count("probe.import-refused-the-statement");
+            return;
+        }
+        None => return,
+    };
+    if base.built.len() != sc.entries.len() {
+        out.count("foreign.record-count");
+        return;
+    }
+    // rules whose every pattern is a valid regex only (an invalid one is a configuration error)
+    let mut judged = 0u64;
+    for (pi, p) in sc.procs.iter().enumerate() {
+        out.set("hash_orders", hash_order_canary(p.hash_seed));
+        let imported = match import_with(sc, p, out) {
+            Some(Ok(i)) => i,
+            Some(Err(e)) => {
+                out.violate_keyed("C17/import-failed", "viseca", "import failed (Viseca)", format!("{}\n{}", e, config_yaml(sc)));
+                return;
+            }
+            None => return,
+        };
+        if imported.built.len() != base.built.len() {
+            out.count("foreign.record-count");
+            return;
+        }
+        for (i, e) in sc.entries.iter().enumerate() {
+            let mut fields = BTreeMap::new();
+            fields.insert("category".to_string(), e.category.clone().unwrap_or_default());
+            let folded = fold_rules(&sc.rules, Some(&base.built[i].payee), &fields, &|_| true);
+            if let Some(why) = folded.open {
+                out.count(&format!("dc.{}", why));
+                continue;
+            }
+            let mut want = base.built[i].clone();
+            if let Some(p) = &folded.payee {
+                want.payee = p.clone();
+            }
+            // the fold does not reach the code of a card entry (none is set)
+            want.code = imported.built[i].code.clone();
+            for post in want.posts.iter_mut() {
+                if post.account == "Expenses:Unknown" || post.account == "Income:Unknown" {
+                    if let Some(a) = &folded.account {
+                        post.account = a.clone();
+                    }
+                    post.state = if folded.cleared { ' ' } else { '!' };
+                }
+            }
+            judged += 1;
+            let d = txn_diff(&want, &imported.built[i]);
+            if let Some((field, detail)) = d.first() {
+                let rule = match field.as_str() {
+                    "payee" => "C17/payee-chain",
+                    f if f.contains("account") => {
+                        if folded.account.is_some() {
+                            "C17/account-override"
+                        } else {
+                            "C17/default-account"
+                        }
+                    }
+                    "pending-mark" => "C17/pending",
+                    _ => "C17/other-field",
+                };
+                out.violate_keyed(
+                    rule,
+                    "viseca",
+                    format!("viseca; {} rules", sc.rules.len()),
+                    format!("entry {} in process {}: {}: {}\n--- config ---\n{}\n--- statement ---\n{}", i, pi, field, detail, config_yaml(sc), text),
+                );
+                return;
+            }
+        }
+    }
+    out.add("probe.records-judged", judged);
+    out.nontrivial = judged > 0 && !sc.rules.is_empty();
+}
+
+/// A card statement under a richer rule chain (for C17): rewrites followed by rules that
+/// only match the rewritten payee, OR-lists, AND-elements over payee and category, payee
+/// overrides, pending flags, account-less rules.
+pub fn gen_sc_rules(rng: &mut Rng) -> Sc {
+    let mut sc = gen_sc(rng);
+    let payee_pats = [
+        "(?P<payee>GOOGLE) \\*\\w+",
+        "PAYPAL \\*(?P<payee>[A-Z]+) GAMES",
+        "^GOOGLE$",
+        "^STEAM$",
+        "^Renamed$",
+        "google",
+        "Gas",
+        "payment",
+        "(?P<payee>HM)\\.COM",
+        "^HM$",
+        "phone|Gas",
+        "shop",
+        ".*",
+    ];
+    let cat_pats = ["Telecommunication", "Service stations", "goods", "^$", "Clothing|Digital"];
+    let accounts = ["Expenses:Subscription", "Expenses:Games", "Expenses:Car:Gas", "Expenses:Telecom", "Assets:Wire", "Expenses:Clothes"];
+    let mut rules = Vec::new();
+    for _ in 0..1 + rng.usize(6) {
+        let mut matcher = Vec::new();
+        for _ in 0..if rng.chance(1, 4) { 2 } else { 1 } {
+            let mut el = BTreeMap::new();
+            match rng.below(4) {
+                0 => {
+                    el.insert("category".to_string(), cat_pats[rng.usize(cat_pats.len())].to_string());
+                }
+                1 => {
+                    el.insert("payee".to_string(), payee_pats[rng.usize(payee_pats.len())].to_string());
+                    el.insert("category".to_string(), cat_pats[rng.usize(cat_pats.len())].to_string());
+                }
+                _ => {
+                    el.insert("payee".to_string(), payee_pats[rng.usize(payee_pats.len())].to_string());
+                }
+            }
+            matcher.push(el);
+        }
+        let single = matcher.len() == 1 && rng.chance(1, 2);
+        rules.push(Rule {
+            matcher,
+            single,
+            pending: rng.chance(1, 4),
+            payee: if rng.chance(1, 6) { Some("Renamed".to_string()) } else { None },
+            account: if rng.chance(3, 5) { Some(accounts[rng.usize(accounts.len())].to_string()) } else { None },
+            conversion: None,
+        });
+    }
+    sc.rules = rules;
+    sc
+}
